@@ -35,7 +35,8 @@ class Gen:
     def number(self):
         r = self.r
         return r.choice([str(r.randrange(0, 100)), "0x%X" % r.randrange(0, 4096), "0", "1", "07", "1u", "2UL", "1.5", "3.0f",
-                         "1e3", "0b101" if self.lang == "CPP" else "5", ".5"])
+                         "1e3", "0b101" if self.lang == "CPP" else "5", ".5", "1e-3", "2.5E+4", "0x1.8p-3" if self.lang != "JAVA" else "1e-2",
+                         "0x1p+2" if self.lang != "JAVA" else "7"])
 
     def string(self):
         r = self.r
@@ -293,6 +294,11 @@ class Gen:
             self.emit(0, ["#define " + r.choice(["CHK(x) do { if (x) { fa(); } else { fb(); } } while (0)",
                                                   "TWO(n) int n##_a(void) { return 1; } int n##_b(void) { return 2; }",
                                                   "BLK { g1(); } g2();"])], "pp")
+        elif k < 0.71:
+            # a directive continued over a line break, with blanks after the backslash
+            self.hit("pp:continued-blanks")
+            self.emit(0, [r.choice(["#pragma mark first \\  \n    second", "#define CONT(a) do_it(a); \\   \n    more(a)",
+                                    "#pragma omp parallel \\ \t \n    for"])], "pp")
         elif k < 0.75:
             self.hit("pp:define-multi")
             self.emit(0, ["#define SWAP(a, b) \\\n    do { int t = a; \\\n         a = b; b = t; \\\n    } while (0)"], "pp")
